@@ -1318,7 +1318,7 @@ package reftable
 //@   pure
 
 //@ func (*Stack).NewAddition
-//@   props C04 C08 C09 C16
+//@   props C04 C08 C09 C16 C05 C06
 //@   requires wfStack(st)
 //@   modifies held, fileOf, ownsTmp, listNames, listLen, lastReadNames, lastReadLen, lockFails, tblExists, fileClosed
 //@   ensures[open] result1 == nil ==> result0 != nil && fresh(result0) && addInv(result0) && result0.lockFileName != "" && len(result0.newTables) == 0 && result0.stack == st && namesMatch(st)
@@ -1332,7 +1332,7 @@ package reftable
 
 // C08/C16: Close releases the lock only if the transaction still holds it, and leaves nothing held.
 //@ func (*Addition).Close
-//@   props C08 C16 C04
+//@   props C08 C16 C04 C05 C06
 //@   requires closeInv(tr)
 //@   modifies held, ownsTmp, tblExists, fileClosed, listNames, listLen, lastReadNames, lastReadLen, tr.lockFile, tr.lockFileName
 //@   ensures tr.lockFileName == "" && tr.lockFile == nil && wfStack(tr.stack)
@@ -1852,7 +1852,7 @@ package reftable
 // C16: Clean succeeds on any stack, including an empty one; it takes and releases the list lock and removes only
 // files that are not locks.
 //@ func (*Stack).Clean
-//@   props C16 C08 C10
+//@   props C16 C08 C10 C05 C06
 //@   requires wfStack(st) && !held[listLock()] && (forall i int :: 0 <= i && i < len(st.stack) ==> st.stack[i].src != nil)
 //@   nopanic
 //@   modifies held, ownsTmp, tblExists, fileClosed, fileOf, listNames, listLen, lastReadNames, lastReadLen, lockFails, buflen, bufdata, lastDelta, lastSought, st.stack, st.merged, anyof(*Addition), rdClosed, seekOn, seekName, seekIdx, yielded, stream
@@ -1867,7 +1867,7 @@ package reftable
 
 // C16: Close succeeds on any stack; it removes only files that are not locks and leaves nothing held.
 //@ func (*Stack).Close
-//@   props C16 C08
+//@   props C16 C08 C05 C06
 //@   requires wfStack(st) && !held[listLock()] && (forall i int :: 0 <= i && i < len(st.stack) ==> st.stack[i].src != nil)
 //@   nopanic
 //@   modifies held, ownsTmp, tblExists, fileClosed, listNames, listLen, lastReadNames, lastReadLen, st.stack, rdClosed
